@@ -14,7 +14,7 @@
                                   `Attribute.from_counting_attr` annotation + type= → ValueError,
                                   base-attribute collection, class kw_only, field_transformer,
                                   mandatory-after-default loop → ValueError; reset of the default on_setattr
-      add_str                     str without generated repr → ValueError   (outside the property's table: K15a)
+      add_str                     str while no __repr__ exists (none generated, none in the class body) → ValueError
       add_setattr                 hooks + own __setattr__ → ValueError       (only `if not frozen`)
       hash block                  non-bool hash → TypeError, cache_hash without generated hash → TypeError
       add_init/add_attrs_init     `_make_init_script`: class hooks on frozen → ValueError, any field-level
@@ -366,7 +366,7 @@ def wrapChecks (c : Case) (aa : Bool) : List (Bool × Exc) :=
     (!c.these && aa && c.fields.any Field.unann, .unannotated),
     ((ownSource c aa).any (fun f => f.annotated && f.typeArg), .valueError),
     (orderLoop false attrs, .valueError),
-    (c.str && !c.genRepr, .valueError),
+    (c.str && !c.genRepr && !c.ownRepr, .valueError),
     (!c.frozen && saNonEmpty attrs on && c.hasOwnSetattr, .valueError),
     (c.hashArg == .bad, .typeError),
     (c.cacheHash && !c.addsHash, .typeError),
